@@ -31,6 +31,7 @@ import (
 	"os"
 	"path/filepath"
 	"regexp"
+	"strconv"
 	"strings"
 
 	"verif/harness/internal/hutil"
@@ -252,6 +253,8 @@ type ruleDef struct {
 	// generated from them), and whether a hit carries a second word (on the same or on the next line)
 	markers  []string
 	twoWords bool
+	// a call without Report(): the message is "suggestion: " + the Suggest template
+	noReport bool
 }
 
 func eq(v, lit string) *flt       { return &flt{Op: "eq", Var: v, Lit: lit} }
@@ -309,6 +312,8 @@ var fixedRules = []ruleDef{
 	{pats: []string{`(?s)L2(?P<la>\w+)(\s+(?P<lb>\w+))?`}, filter: not(lineeq("$$", "lb")), msg: "L2 near, other line $la [$lb]", sugg: "$lb"},
 	{pats: []string{`N1~(?P<nv>\w+)`}, filter: or(nodeis("nv", "Ident"), nodeis("$$", "Expr")), msg: "N1 never"},
 	{pats: []string{`N1~(?P<nv>\w+)`}, filter: and(nodeis("nv", "Node"), not(nodeis("nv", "BasicLit"))), msg: "N1 node $nv"},
+	// Suggest() without Report(): the message is the suggestion template behind "suggestion: " (truncated there, not in the fix)
+	{pats: []string{`S1~(?P<sv>\w+)`}, sugg: "<$sv|$$>", noReport: true},
 	// one regexp that names two groups alike (Go accepts it): everywhere -- filter, At(), message, suggestion -- the name is
 	// the FIRST group of that name; the second regexp has more than 12 named groups
 	{pats: []string{`D1:(?:(?P<d>un)|(?P<d>deux))`}, filter: ne("d", ""), msg: "D1 first d=[$d] $$", at: "d", sugg: "<$d>"},
@@ -625,7 +630,7 @@ func main() {
 					return true
 				}
 			}
-			for _, b := range append([]string{"// L1lo hum", "/* L2lo\nhum */", "// N1~lo", "// D1:deux", "// D2:ABCDEFGHIJKLMN"}, altFixed...) {
+			for _, b := range append([]string{"// L1lo hum", "/* L2lo\nhum */", "// N1~lo", "// D1:deux", "// D2:ABCDEFGHIJKLMN", "// S1~lo"}, altFixed...) {
 				if re.MatchString(b) {
 					return true
 				}
@@ -641,7 +646,8 @@ func main() {
 
 	// ---- rules file, flattened rule list in load order
 	// the rules are spread over three rules files loaded one after the other (load order = file order, then source order)
-	var rbs [3]strings.Builder
+	var rbs, consts [3]strings.Builder
+	nspell := 0
 	rfile := 0
 	line := 1
 	w := func(s string) {
@@ -661,13 +667,33 @@ func main() {
 		group := fmt.Sprintf("c%d", di)
 		w(fmt.Sprintf("func %s(m dsl.Matcher) {\n\tm.MatchComment(\n", group))
 		var altLines []int
+		// every string argument in one of the spellings a rules file may use: raw literal, interpreted literal, a named
+		// constant, a constant expression -- the rule must be built from the STRING VALUE
+		spell := func(str string) string {
+			nspell++
+			q := strconv.Quote(str)
+			switch nspell % 5 {
+			case 0, 1:
+				if !strings.Contains(str, "`") && !strings.Contains(str, "\r") {
+					q = "`" + str + "`"
+				}
+			case 3:
+				fmt.Fprintf(&consts[rfile], "const s%d = %s\n", nspell, q)
+				q = fmt.Sprintf("s%d", nspell)
+			case 4:
+				if rs := []rune(str); len(rs) >= 2 {
+					q = strconv.Quote(string(rs[:len(rs)/2])) + " + " + strconv.Quote(string(rs[len(rs)/2:]))
+				}
+			}
+			return q
+		}
 		for k, p := range d.pats {
 			altLines = append(altLines, line)
 			if k >= 1 && k+1 < len(d.pats) && (di+k)%2 == 0 {
-				w("\t\t`" + p + "`, ") // the next alternative stands on the same line
+				w("\t\t" + spell(p) + ", ") // the next alternative stands on the same line
 				continue
 			}
-			w("\t\t`" + p + "`,\n")
+			w("\t\t" + spell(p) + ",\n")
 			if k == 0 && len(d.pats) > 1 {
 				w("\n")
 			}
@@ -677,11 +703,15 @@ func main() {
 			w(".\n\t\tWhere(" + d.filter.dsl() + ")")
 		}
 		if d.at != "" {
-			w(fmt.Sprintf(".\n\t\tAt(m[%q])", d.at))
+			w(".\n\t\tAt(m[" + spell(d.at) + "])")
 		}
-		w(".\n\t\tReport(`" + d.msg + "`)")
+		if d.noReport {
+			d.msg = "suggestion: " + d.sugg
+		} else {
+			w(".\n\t\tReport(" + spell(d.msg) + ")")
+		}
 		if d.sugg != "" {
-			w(".\n\t\tSuggest(`" + d.sugg + "`)")
+			w(".\n\t\tSuggest(" + spell(d.sugg) + ")")
 		}
 		w("\n}\n\n")
 		for k, p := range d.pats {
@@ -755,6 +785,7 @@ func main() {
 			addc("\t", "// see "+body, "\n")
 		}
 	}
+	suggComments := []string{"// S1~lo", "/* S1~0123456789012345678901234567890123456789 S1~x */"}
 	dupComments := []string{"// D1:un", "/* D1:deux */", "// x D1:deux D1:un", "// D2:ABCDEFGHIJKLMN", "/* see D2:ABCDEFGHIJKLMN */"}
 	lineComments := []string{"// L1lo hum", "/* L1lo\n hum */", "/* L1lo\n\nhum*/", "// L2lo", "// L2lo hum", "/* L2w9\n\thum */", "/*\nL2lo hum\n*/", "//N1~lo", "/* N1~ N1~w9 */",
 		"/* L1x\r\nxx */"}
@@ -809,6 +840,9 @@ func main() {
 		addc("\t", c, "\n")
 	}
 	for _, c := range dupComments {
+		addc("\t", c, "\n")
+	}
+	for _, c := range suggComments {
 		addc("\t", c, "\n")
 	}
 	for i, b := range altBody {
@@ -934,7 +968,8 @@ func main() {
 		}
 		targets = append(targets, &target{path: path, src: src, file: f, pkg: pkg, info: info})
 	}
-	e, err := hutil.LoadEngine(fset, map[string]string{"rules0.go": rbs[0].String(), "rules1.go": rbs[1].String(), "rules2.go": rbs[2].String()},
+	e, err := hutil.LoadEngine(fset, map[string]string{"rules0.go": rbs[0].String() + consts[0].String(), "rules1.go": rbs[1].String() + consts[1].String(),
+		"rules2.go": rbs[2].String() + consts[2].String()},
 		[]string{"rules0.go", "rules1.go", "rules2.go"})
 	if err != nil {
 		fmt.Fprintln(os.Stderr, "load:", err)
